@@ -130,6 +130,14 @@ def run_misuse(case, res):
             m0._add_order(o)
         except Exception:  # noqa
             res.count("class/refused_resubmission_direct")
+        # the very first order of a market, accepted at time 0 with id 0 (both stamps are "falsy")
+        m2 = mk(2)
+        first = Order(agent_id=0, market_id=2, is_buy=rng.random() < 0.5, kind=LIMIT_ORDER, volume=1, price=100.0)
+        m2._add_order(first)
+        try:
+            m2._add_order(first)
+        except Exception:  # noqa
+            res.count("class/refused_resubmission_direct")
         # a cancel routed to the wrong market must not remove anything from it
         o2 = Order(agent_id=1, market_id=0, is_buy=False, kind=LIMIT_ORDER, volume=2, price=105.0)
         m0._add_order(o2)
